@@ -143,6 +143,14 @@ CLAIMED["C14"] = dict(
     note=TRUST + " Sem/GoSem.v is a model of Go; Go texts of the two pipelines differ in declaration order and temporaries, so behaviour (stdout and ending) is compared, not text.",
 )
 
+CLAIMED["C03"] = dict(
+    technique="Coq: an executable type-consistency checker over a typed mirror of the Core/Mono/Lift/ANF trees, with proved soundness for closedness and for absence of generic residue; the real stage trees (Rust Debug dumps, every node with the type the compiler put on it) of generated, corpus and multi-package programs are translated node for node and checked inside coqc; single type errors injected into generated programs must be rejected by the real typer",
+    text="accepted_trees_are_closed and accepted_mono_trees_have_no_residue (no axioms): whatever check accepts has every variable bound by an enclosing binder/parameter, a top-level function or a listed builtin, and after monomorphisation no TParam/TVar/TApp on any node. check additionally enforces binder types, instance matching of top-level functions, and let/if/while/match/call/tuple/projection/array/closure/operator/dyn typing and declared return types. "
+         "Every run checks all four stage trees of ~190 (thorough ~1800) accepted programs and requires rejection of 32 kinds of injected type errors.",
+    design_ref="DESIGN.md §4 C03",
+    note=TRUST + " lib/typed2coq.py (Debug tree -> Coq term) is trusted to keep names and types; constructor field types and trait method signatures are not re-checked; an unsatisfied trait bound at a generic call is a known finding.",
+)
+
 NOT_YET = {}
 
 def main():
